@@ -60,3 +60,42 @@ Theorem C02_shared_id_refuted :
   last (run_sworld c02_witness).2 = Some (SoEntries [((0%N, pA), true, 3%N)]).
 Proof. exact c02_shared_id_witness. Qed.
 Print Assumptions C02_shared_id_refuted.
+
+(* ------------------------------------------------------------------ *)
+(* Isolation by wire identity (Pipe/PipeCompose.v). A session-ending op is a Peer Down, a
+   Termination, a lost BMP connection or a closed BGP session; [named sw o] is the set of
+   wire identities it names, given the sessions that are live. *)
+From RV Require Import Pipe.PipeCompose.
+
+(* ideal RIB: exactly the entries of the named identities turn to withdrawn (attributes
+   kept); every other entry is as it was *)
+Theorem C02_isolation_by_wire_identity : forall sw o f p x,
+  ends_session o = true ->
+  s_rib (sstep sw o).1 !! (f, p, x) =
+  if named sw o x then wdn (s_rib sw !! (f, p, x)) else s_rib sw !! (f, p, x).
+Proof. exact session_end_exact. Qed.
+Print Assumptions C02_isolation_by_wire_identity.
+
+(* the pipeline, after ANY disciplined history in which no two wire identities were given
+   one ingress id (that excludes known finding C02-1): what the code's RIB shows under the
+   id of wire identity x turns to withdrawn if the op names x and does not change otherwise *)
+Theorem C02_pipeline_isolation : forall ops o x i f p,
+  disciplined (ops ++ [o]) = true -> (N.of_nat (length (ops ++ [o])) < two32 - 2)%N -> (f < 4)%N ->
+  ends_session o = true ->
+  NoShare (w_ids (run_world ops).1) -> id_of (w_ids (run_world ops).1) x = Some i ->
+  rib_lookup (w_rib (run_world (ops ++ [o])).1) (f, p, i) =
+  if named (run_sworld ops).1 o x then wdn (rib_lookup (w_rib (run_world ops).1) (f, p, i))
+  else rib_lookup (w_rib (run_world ops).1) (f, p, i).
+Proof. exact pipe_session_end_rib. Qed.
+Print Assumptions C02_pipeline_isolation.
+
+(* the same on the last-event reading of the updates the pipeline applied *)
+Theorem C02_pipeline_isolation_events : forall ops o x i f p,
+  disciplined (ops ++ [o]) = true -> (N.of_nat (length (ops ++ [o])) < two32 - 2)%N -> (f < 4)%N ->
+  ends_session o = true ->
+  NoShare (w_ids (run_world ops).1) -> id_of (w_ids (run_world ops).1) x = Some i ->
+  spec_lookup (evs_of (world_updates (ops ++ [o]))) (f, p, i) =
+  if named (run_sworld ops).1 o x then wdn (spec_lookup (evs_of (world_updates ops)) (f, p, i))
+  else spec_lookup (evs_of (world_updates ops)) (f, p, i).
+Proof. exact pipe_session_end_isolated. Qed.
+Print Assumptions C02_pipeline_isolation_events.
